@@ -31,5 +31,7 @@ pub mod c13_weighted;
 pub mod c14_compose;
 #[cfg(feature = "c15")]
 pub mod c15_order;
+#[cfg(feature = "c17")]
+pub mod c17_erased;
 #[cfg(feature = "c18")]
 pub mod c18_generators;
